@@ -11,6 +11,11 @@
 //   without '@' the user's function is the expression; with '@' it is defined through an integral: while the library
 //   evaluates it, it calls Integrate(t -> inner(x,y,z,t), lo(x,y,z), hi(x,y,z), inner method, inner p) and hands the value to
 //   the expression as 'v 3' (the library is re-entered from inside its own integrand).
+// <user> = <fexpr(x,y,z,v 3)> @@ <named1d|nested2d|nested3d|spherical> <method> <p> <2, 4 or 6 limits, each an fexpr of the enclosing x,y,z> <user>
+//   'v 3' is a call of that entry point on a user function of its own (which sees the inner integration variables, resp. the components of the
+//   vector, as x,y,z), made anew at every point at which the library evaluates the outer function: a normalisation computed by an integral inside
+//   an integrand, to any depth (3D in 3D in 3D = nine levels of Integrate active at once).  The answer of such a case ends with one more
+//   number, flat: the same call with every inner call made beforehand as a call of its own from the top level and its value put in its place.
 // direct = what the call should delegate to: the back end of the method name called directly (boost quadrature,
 //   Integrate_Gauss_Legendre, Find_Epsilon + Integrate), nested by the harness itself level by level with the same
 //   method_parameter at every level, on the same user function.  (Not recomputed, i.e. the value is repeated, for "Trapezoidal" in two
@@ -65,42 +70,183 @@ struct Rec
 	}
 };
 
+// The prefix expressions of the case lines, compiled once per case into a tree with numeric operation codes (vh::eval_fexpr compares operation names
+// as strings at every node of every evaluation; a nested integral evaluates its integrand 10^5 .. 10^8 times).  Same operations, same operands; a node
+// that has no code of its own here is handed to vh::eval_fexpr.
+struct Fx
+{
+	enum Op { X, Y, Z, V, C, ADD, SUB, MUL, DIV, POW, NEG, EXP, LOG, SIN, COS, ATAN, ERF, COSH, TANH, ABS, SQRT, STEP, OTHER };
+	struct Node
+	{
+		Op op = OTHER;
+		double c = 0;
+		long k = 0;
+		const vh::FExpr* src = nullptr;
+		std::vector<Node> a;
+	};
+	std::shared_ptr<vh::FExpr> src;
+	Node code;
+	static Node compile(const vh::FExpr& e)
+	{
+		static const char* names[] = {"x", "y", "z", "v", "c", "+", "-", "*", "/", "pow", "neg", "exp", "log", "sin", "cos", "atan", "erf", "cosh", "tanh", "abs", "sqrt", "step"};
+		Node n;
+		n.src = &e;
+		n.c	  = e.c;
+		n.k	  = e.k;
+		for(int j = 0; j < (int) OTHER; j++)
+			if(e.op == names[j])
+				n.op = (Op) j;
+		if(n.op != OTHER)
+			for(auto& q : e.a)
+				n.a.push_back(compile(*q));
+		return n;
+	}
+	static Fx parse(vh::Reader& r)
+	{
+		Fx f;
+		f.src  = vh::parse_fexpr(r);
+		f.code = compile(*f.src);
+		return f;
+	}
+	static double ev(const Node& e, const double* v)
+	{
+		switch(e.op)
+		{
+			case X: return v[0];
+			case Y: return v[1];
+			case Z: return v[2];
+			case V: return v[e.k];
+			case C: return e.c;
+			case ADD: return ev(e.a[0], v) + ev(e.a[1], v);
+			case SUB: return ev(e.a[0], v) - ev(e.a[1], v);
+			case MUL: return ev(e.a[0], v) * ev(e.a[1], v);
+			case DIV: return ev(e.a[0], v) / ev(e.a[1], v);
+			case POW: return std::pow(ev(e.a[0], v), e.c);
+			case NEG: return -ev(e.a[0], v);
+			case EXP: return std::exp(ev(e.a[0], v));
+			case LOG: return std::log(ev(e.a[0], v));
+			case SIN: return std::sin(ev(e.a[0], v));
+			case COS: return std::cos(ev(e.a[0], v));
+			case ATAN: return std::atan(ev(e.a[0], v));
+			case ERF: return std::erf(ev(e.a[0], v));
+			case COSH: return std::cosh(ev(e.a[0], v));
+			case TANH: return std::tanh(ev(e.a[0], v));
+			case ABS: return std::fabs(ev(e.a[0], v));
+			case SQRT: return std::sqrt(ev(e.a[0], v));
+			case STEP: return ev(e.a[0], v) >= 0.0 ? 1.0 : 0.0;
+			default: return vh::eval_fexpr(*e.src, v);
+		}
+	}
+	double operator()(const double* v) const { return ev(code, v); }
+};
+
 // the user's function of a case
+struct User;
+static double front_end(const std::string& op, const std::string& method, int p, const double* L, const User& u);
 struct User
 {
-	std::shared_ptr<vh::FExpr> e, lo, hi, in;
+	Fx e, lo, hi, in;
 	bool reentrant = false;
 	std::string imethod;
 	int ip = 0;
+	// '@@': the value handed to the expression as 'v 3' is a call of one of the four entry points on a user function of its own
+	std::shared_ptr<User> deep;
+	std::string dop, dmethod;
+	int dp = 0;
+	std::vector<Fx> dlim;
+	bool has_const = false;		 // flattened: 'v 3' is a number computed beforehand
+	double const_v = 0.0;
 	void parse(vh::Reader& r)
 	{
-		e = vh::parse_fexpr(r);
+		e = Fx::parse(r);
 		if(r.more() && r.t[r.i] == "@")
 		{
 			r.word();
 			reentrant = true;
 			imethod	  = r.word();
 			ip		  = (int) r.integer();
-			lo		  = vh::parse_fexpr(r);
-			hi		  = vh::parse_fexpr(r);
-			in		  = vh::parse_fexpr(r);
+			lo		  = Fx::parse(r);
+			hi		  = Fx::parse(r);
+			in		  = Fx::parse(r);
 		}
+		else if(r.more() && r.t[r.i] == "@@")
+		{
+			r.word();
+			dop		= r.word();
+			dmethod = r.word();
+			dp		= (int) r.integer();
+			int nl	= dop == "named1d" ? 2 : dop == "nested2d" ? 4 : 6;
+			for(int k = 0; k < nl; k++)
+				dlim.push_back(Fx::parse(r));
+			deep = std::make_shared<User>();
+			deep->parse(r);
+		}
+	}
+	double inner_call(const double* v) const
+	{
+		double L[6] = {0, 0, 0, 0, 0, 0};
+		for(size_t k = 0; k < dlim.size(); k++)
+			L[k] = dlim[k](v);
+		return front_end(dop, dmethod, dp, L, *deep);
 	}
 	double operator()(double x, double y, double z) const
 	{
 		double v[4] = {x, y, z, 0.0};
-		if(reentrant)
+		if(has_const)
+			v[3] = const_v;
+		else if(deep)
+			v[3] = inner_call(v);
+		else if(reentrant)
 		{
-			const vh::FExpr* inner			  = in.get();
+			const Fx* inner					  = &in;
 			std::function<double(double)> h = [inner, x, y, z](double t) {
 				double w[4] = {x, y, z, t};
-				return vh::eval_fexpr(*inner, w);
+				return (*inner)(w);
 			};
-			v[3] = Integrate(h, vh::eval_fexpr(*lo, v), vh::eval_fexpr(*hi, v), imethod, ip);
+			v[3] = Integrate(h, lo(v), hi(v), imethod, ip);
 		}
-		return vh::eval_fexpr(*e, v);
+		return e(v);
+	}
+	// the same function with every inner call made beforehand, innermost first, each one as a call of its own from the top level (its limits
+	// taken at the origin of the enclosing variables: the generator writes constant limits), and its value put in place of the call
+	User flattened() const
+	{
+		User f = *this;
+		if(deep)
+		{
+			User inner	= deep->flattened();
+			double v[4] = {0, 0, 0, 0}, L[6] = {0, 0, 0, 0, 0, 0};
+			for(size_t k = 0; k < dlim.size(); k++)
+				L[k] = dlim[k](v);
+			f.const_v	= front_end(dop, dmethod, dp, L, inner);
+			f.has_const = true;
+			f.deep.reset();
+		}
+		return f;
 	}
 };
+
+// a call of one of the four entry points on a user function (the inner calls of '@@', and the flattened repetition of a case)
+static double front_end(const std::string& op, const std::string& method, int p, const double* L, const User& u)
+{
+	if(op == "named1d")
+	{
+		std::function<double(double)> f = [&u](double t) { return u(t, 0, 0); };
+		return Integrate(f, L[0], L[1], method, p);
+	}
+	if(op == "nested2d")
+	{
+		std::function<double(double, double)> f = [&u](double x, double y) { return u(x, y, 0); };
+		return Integrate_2D(f, L[0], L[1], L[2], L[3], method, p);
+	}
+	if(op == "nested3d")
+	{
+		std::function<double(double, double, double)> f = [&u](double x, double y, double z) { return u(x, y, z); };
+		return Integrate_3D(f, L[0], L[1], L[2], L[3], L[4], L[5], method, p);
+	}
+	std::function<double(Vector)> f = [&u](Vector w) { return u(w[0], w[1], w[2]); };
+	return Integrate_3D(f, L[0], L[1], L[2], L[3], L[4], L[5], method, p);
+}
 
 static double direct_1d(const std::string& method, std::function<double(double)> f, double a, double b, int p, bool& known)
 {
@@ -146,8 +292,8 @@ static double direct_nd(const std::string& method, const std::function<double(co
 }
 
 // the direct nesting of these two is as expensive as the call: it is left out when the call itself was expensive
-static bool costly3(const std::string& method, long n) { return (method == "Trapezoidal" || method == "Tanh-Sinh") && n > 700000; }
-static bool costly2(const std::string& method, long n) { return method == "Trapezoidal" && n > 700000; }
+static bool costly3(const std::string& method, long n) { return ((method == "Trapezoidal" || method == "Tanh-Sinh") && n > 700000) || (method == "Adaptive-Simpson" && n > 4000000); }
+static bool costly2(const std::string& method, long n) { return (method == "Trapezoidal" && n > 700000) || (method == "Adaptive-Simpson" && n > 4000000); }
 // (the adaptive Simpson rule taken to its depth limit over the whole interval, 2^21 evaluations: a tolerance of zero or next to zero)
 static bool costly1(const std::string& method, long n) { return method == "Adaptive-Simpson" && n > 700000; }
 
@@ -167,12 +313,12 @@ static bool gl_overloads(const std::string& op, vh::Reader& r, vh::Out& o)
 	if(op == "glfun")
 	{
 		std::vector<std::vector<double>> rows = r.table();
-		std::shared_ptr<vh::FExpr> e		  = vh::parse_fexpr(r);
+		Fx e								  = Fx::parse(r);
 		long n								  = 0;
 		std::function<double(double)> f		  = [&](double x) {
 			  n++;
 			  double v[4] = {x, 0.0, 0.0, 0.0};
-			  return vh::eval_fexpr(*e, v);
+			  return e(v);
 		};
 		double val = Integrate_Gauss_Legendre(f, rows);
 		o.f(val);
@@ -208,6 +354,8 @@ static void do_call(const std::string& op, vh::Reader& r, vh::Out& o)
 		o.f(val);
 		o.f(dir);
 		rec.put(o, 1);
+		if(u.deep)
+			o.f(front_end(op, method, p, lim, u.flattened()));
 	}
 	else if(op == "nested2d")
 	{
@@ -226,6 +374,8 @@ static void do_call(const std::string& op, vh::Reader& r, vh::Out& o)
 		o.f(val);
 		o.f(dir);
 		rec.put(o, 2);
+		if(u.deep)
+			o.f(front_end(op, method, p, lim, u.flattened()));
 	}
 	else if(op == "nested3d")
 	{
@@ -245,6 +395,8 @@ static void do_call(const std::string& op, vh::Reader& r, vh::Out& o)
 		o.f(val);
 		o.f(dir);
 		rec.put(o, 3);
+		if(u.deep)
+			o.f(front_end(op, method, p, lim, u.flattened()));
 	}
 	else if(op == "spherical")
 	{
@@ -274,6 +426,8 @@ static void do_call(const std::string& op, vh::Reader& r, vh::Out& o)
 		o.f(val);
 		o.f(dir);
 		rec.put(o, 3);
+		if(u.deep)
+			o.f(front_end(op, method, p, lim, u.flattened()));
 	}
 	else
 		o.w("HARNESSERR unknown_op");
